@@ -12,4 +12,5 @@ for (module, qual), c in reg.contracts.items():
         continue
     out["%s::%s" % (module, qual)] = dict(requires=list(c.requires), ensures=list(c.ensures), raises=dict(c.raises),
                                           ensures_raise={k: list(v) for k, v in c.ensures_raise.items()}, params=list(c.params))
+out["__specfuns__"] = {name: dict(params=list(params), body=body) for name, (params, _ret, body) in reg.specfuns.items() if body}
 json.dump(out, open(sys.argv[2], "w"), indent=1)
